@@ -24,7 +24,8 @@ abbrev LS := List Hold
 
 inductive Cmd where
   | skip
-  | acq (x : Hold)            -- m.Lock() / m.RLock() (or an annotated acquisition)
+  | acq (x : Hold)            -- m.Lock() / m.RLock()
+  | asm (x : Hold)            -- annotated: from here on `x` is ASSUMED held (func_holds, call_acquires)
   | rel (m : Mutex)           -- m.Unlock() / m.RUnlock()
   | dfr (m : Mutex)           -- defer m.Unlock(): no effect until the function returns
   | acc (occ : Nat)           -- an access site (occurrence id = `Access.site` of its table rows)
@@ -74,14 +75,23 @@ def dfrs : Cmd → List Mutex
   | .block a => dfrs a
   | _ => []
 
-/-- `Run env c h obs h' t`: executing `c` with the locks `h` held performs the accesses `obs` (site, locks held
-    there), ends holding `h'`, with outcome `t`. -/
-inductive Run (env : Nat → Option Cmd) : Cmd → LS → List (Nat × LS) → LS → Out → Prop where
+/-- what the executing goroutine does, in order: lock operations, assumed holds, accesses (site, locks held there) -/
+inductive LEv where
+  | acq (x : Hold)
+  | asm (x : Hold)
+  | rel (m : Mutex)
+  | acc (k : Nat) (h : LS)
+deriving Repr
+
+/-- `Run env c h evs h' t`: executing `c` with the locks `h` held performs the events `evs` (of THIS goroutine; what
+    a spawned goroutine does is a run of its own), ends holding `h'`, with outcome `t`. -/
+inductive Run (env : Nat → Option Cmd) : Cmd → LS → List LEv → LS → Out → Prop where
   | skip {h} : Run env .skip h [] h .normal
-  | acq {x h} : Run env (.acq x) h [] (x :: h) .normal
-  | rel {m h} : Run env (.rel m) h [] (dropM m h) .normal
+  | acq {x h} : Run env (.acq x) h [.acq x] (x :: h) .normal
+  | asm {x h} : Run env (.asm x) h [.asm x] (x :: h) .normal
+  | rel {m h} : Run env (.rel m) h [.rel m] (dropM m h) .normal
   | dfr {m h} : Run env (.dfr m) h [] h .normal
-  | acc {k h} : Run env (.acc k) h [(k, h)] h .normal
+  | acc {k h} : Run env (.acc k) h [.acc k h] h .normal
   | ret {h} : Run env .ret h [] h .returned
   | jump {n h} : Run env (.jump n) h [] h (.exit n)
   | blockN {a h o h'} : Run env a h o h' .normal → Run env (.block a) h o h' .normal
@@ -96,10 +106,14 @@ inductive Run (env : Nat → Option Cmd) : Cmd → LS → List (Nat × LS) → L
   | loopS {a h o₁ h₁ o₂ h₂ t} : Run env a h o₁ h₁ .normal →
       Run env (.loop a) h₁ o₂ h₂ t → Run env (.loop a) h (o₁ ++ o₂) h₂ t
   | loopX {a h o₁ h₁ t} : Run env a h o₁ h₁ t → t ≠ .normal → Run env (.loop a) h o₁ h₁ t
-  | spawn {a h o h' t} : Run env a [] o h' t → Run env (.spawn a) h o h .normal
+  | spawn {a h} : Run env (.spawn a) h [] h .normal
   | call {f body h o h₁ t} : env f = some body → Run env body h o h₁ t →
-      Run env (.call f) h o (dropAll (dfrs body) h₁) .normal
-  | icall {f body h o h₁ t} : env f = some body → Run env body h o h₁ t → Run env (.icall f) h o h .normal
+      Run env (.call f) h (o ++ (dfrs body).map .rel) (dropAll (dfrs body) h₁) .normal
+  /-- an interface-dispatched callee: like `call`, restricted to the runs in which it does not take away a lock its
+      caller holds — THE ASSUMPTION about dynamically dispatched methods (Model header, `icall`) -/
+  | icall {f body h o h₁ t} : env f = some body → Run env body h o h₁ t →
+      (∀ x, x ∈ h → x ∈ dropAll (dfrs body) h₁) →
+      Run env (.icall f) h (o ++ (dfrs body).map .rel) (dropAll (dfrs body) h₁) .normal
 
 /-! ## the analysis -/
 
@@ -129,6 +143,7 @@ def invOfWith (f : LS → Res) (L : LS) : LS :=
 def an (relOf : Nat → List Mutex) : Cmd → LS → Res
   | .skip, L => { out := some L }
   | .acq x, L => { out := some (x :: L) }
+  | .asm x, L => { out := some (x :: L) }
   | .rel m, L => { out := some (dropM m L) }
   | .dfr _, L => { out := some L }
   | .acc k, L => { rows := [(k, L)], out := some L }
